@@ -51,7 +51,7 @@ Section RejectedCustom.
 
   Lemma sig_interp : (forall g, SIG (run_g geom LF crun g)) /\ (forall p, SIG (run_p geom LF crun p)).
   Proof. apply (P_interp (@SIG)); try exact Hcrun; sig_hyps. Qed.
-  Lemma sig_cleanup : SIG (cleanup LF crun).
+  Lemma sig_cleanup inner : SIG (cleanup LF crun inner).
   Proof. clear geom. apply (P_cleanup (@SIG)); try exact Hcrun; sig_hyps. Qed.
   Lemma sig_custom_end r : SIG (custom_end r).
   Proof. clear geom Hcrun. apply (P_custom_end (@SIG)); sig_hyps. Qed.
@@ -59,16 +59,16 @@ Section RejectedCustom.
   (* the only way for Custom's recover to report "rejected" *)
   Lemma custom_handler_none r s :
     res (custom_handler LF crun r s) = Ok None ->
-    failed (ts (post (cleanup LF crun s))) = None /\
-    post (custom_handler LF crun r s) = post (cleanup LF crun s) /\
-    nf (w (custom_handler LF crun r s)) = nf (w (cleanup LF crun s)).
+    failed (ts (post (cleanup LF crun true s))) = None /\
+    post (custom_handler LF crun r s) = post (cleanup LF crun true s) /\
+    nf (w (custom_handler LF crun r s)) = nf (w (cleanup LF crun true s)).
   Proof.
     unfold custom_handler. destruct r as [v|[m|m st|m st|]]; try (cbn [throw res]; discriminate);
-      unfold bind; destruct (res (cleanup LF crun s)) as [[e|]|e];
-      cbn [get_ts throw ret res post w]; try discriminate.
-    - destruct (internal_msg m); cbn [mark_dirty throw ret res post w]; discriminate.
-    - destruct (failed (ts (post (cleanup LF crun s)))) eqn:E; cbn [throw ret res post w]; [discriminate|].
-      intros _. repeat split. cbn [nf wapp wnil w]. rewrite ?orb_false_r. reflexivity.
+      unfold bind; destruct (res (cleanup LF crun true s)) as [[[m'|m' st'|m' st'|]|]|e];
+      cbn [get_ts throw ret res post w]; try discriminate;
+      try (destruct (internal_msg m); cbn [mark_dirty throw ret res post w]; discriminate);
+      (destruct (failed (ts (post (cleanup LF crun true s)))) eqn:E; cbn [throw ret res post w]; [discriminate|];
+       intros _; repeat split; cbn [nf wapp wnil w]; rewrite ?orb_false_r; reflexivity).
   Qed.
 
   Theorem custom_inner_rejected_no_nf (body : M val) s :
@@ -80,12 +80,12 @@ Section RejectedCustom.
     assert (Hi : SIG inner) by (apply sig_try; [exact Hb|apply sig_custom_end]).
     unfold try_ at 1 2 3. cbn [res post w].
     intros H. destruct (custom_handler_none _ _ H) as [Hf [Hp Hn]].
-    pose proof (proj1 (sig_try _ _ inner (fun _ => cleanup LF crun) Hi (fun _ => sig_cleanup)) s) as St.
+    pose proof (proj1 (sig_try _ _ inner (fun _ => cleanup LF crun true) Hi (fun _ => sig_cleanup true)) s) as St.
     unfold try_ at 1 2 in St. cbn [post w] in St.
     split; [|rewrite Hp; exact Hf].
     cbn [nf wapp wuev]. rewrite Hn. cbn [orb].
-    change (nf (wapp (w (inner s)) (w (cleanup LF crun (post (inner s))))) = false).
-    destruct (nf (wapp (w (inner s)) (w (cleanup LF crun (post (inner s)))))); [|reflexivity].
+    change (nf (wapp (w (inner s)) (w (cleanup LF crun true (post (inner s))))) = false).
+    destruct (nf (wapp (w (inner s)) (w (cleanup LF crun true (post (inner s)))))); [|reflexivity].
     exfalso. apply (St (or_intror eq_refl)). exact Hf.
   Qed.
 
